@@ -80,8 +80,8 @@ Proof. exact pinned_two_true_lemma. Qed.
 Example c02_example :
   let c := {| maxw := 2; initw := 1; du := 0; fails := [] |} in
   option_map (fun s => (rev (delivered s), results_closed s, stop_true s))
-    (run c (init c) [Pace 0 false; Wake; Sel1Tick; AssignSeq; TargeterOk 0; Pace 5 false; Advance 5; Wake;
-                     Sel1Default; Sel2Tick; AssignSeq; TargeterOk 1; Complete 1; Consume 1; Pace 0 true;
+    (run c (init c) [CallPace; Pace 0 false; Wake; Sel1Tick; AssignSeq; TargeterOk 0; CallPace; Pace 5 false; Advance 5; Wake;
+                     Sel1Default; Sel2Tick; AssignSeq; TargeterOk 1; Complete 1; Consume 1; CallPace; Pace 0 true;
                      CloseTicks; WorkerExit; Complete 0; Consume 0; WorkerExit; WgDone; CloseResults; FinalStop])
   = Some ([1; 0], true, 1).
 Proof. reflexivity. Qed.
